@@ -16,6 +16,7 @@ import extract_comp as X
 import c01
 import c08
 import c12_cfg
+import c12_routes
 
 import autofit as af
 from autofit.mapper.model import ModelInstance
@@ -142,7 +143,14 @@ def one_case(ctx, prog, label="gen", explicit_wm=None):
         {"k": "uniform", "b": rng.choice([0.5, 3.0])},
         {"k": "with_limits"},
         {"k": "replacing"},
+        # the same through a Result (vector stored by path in a sample and read back)
+        {"k": "means", "via": "result"},
+        {"k": "means", "a": rng.choice([0.5, 2.0, 1e-3]), "via": "result"},
+        {"k": "means", "r": rng.choice([0.5, 0.1, 2.0]), "via": "result"},
+        {"k": "uniform", "b": rng.choice([0.5, 3.0]), "via": "result"},
     ]
+    if ctx.tier != "quick" or label != "gen" or ctx.rng.random() < 0.5:
+        c12_routes.kwargs_case(ctx, model, comp, xs, {"program": prog, "mode": {"k": "kwargs"}, "inferred": xs, "label": label, "explicit_wm": explicit_wm})
     if ctx.tier == "quick":
         modes = [modes[0]] + rng.sample(modes[1:], 3)
     for mode in modes:
@@ -151,15 +159,17 @@ def one_case(ctx, prog, label="gen", explicit_wm=None):
         ctx.case({"comp": comp, "mode": mode, "xs": [f2h(x) for x in xs]}, nontrivial=nontrivial,
                  sample={"program": gen_comp.program_text(prog)[-300:], "mode": mode, "inferred": xs[:6]})
         ctx.hit("mode:" + mode["k"] + ("+" + "".join(k for k in ("a", "r", "no_limits") if k in mode) if mode["k"] == "means" else ""))
+        if mode.get("via"):
+            ctx.hit("route:" + mode["via"] + ":" + mode["k"])
         lims = None
         repl = None
         try:
             if mode["k"] == "means":
-                new = model.mapper_from_prior_means(xs, a=mode.get("a"), r=mode.get("r"), no_limits=mode.get("no_limits", False))
+                new = c12_routes.passed_means(model, xs, mode)
             elif mode["k"] == "uniform":
                 xs_u = [max(min(x, 1e12), -1e12) for x in xs]  # x - b < x + b must be representable
                 case["inferred"] = xs_u
-                new = model.mapper_from_uniform_floats(xs_u, b=mode["b"])
+                new = c12_routes.passed_uniform(model, xs_u, mode)
             elif mode["k"] == "with_limits":
                 lims = []
                 for p, x in zip(priors, xs):
@@ -256,12 +266,14 @@ def one_case(ctx, prog, label="gen", explicit_wm=None):
             cp = c12_cfg.candidate_places(model, p)
             places.append(c12_cfg.place_wire(*(cp[0] if cp else (ModelInstance, "")), p))
         req = {"p": "C12", "comp": comp, "mode": wire_mode, "olds": olds, "xs": pairs}
+        if mode.get("via") == "result":
+            req["via_kwargs"] = True
         if CHAIN is not None:
             req["places"], req["chain"] = places, CHAIN
         else:
             req["cfgs"] = cfgs
         ans = ctx.lean.ask(req)
-        if "driver_error" in ans:
+        if "driver_error" in ans or ans.get("key_error"):
             ctx.disagree("driver", case, None, ans)
             continue
         if not ans.get("cfg_ok", True):
